@@ -91,6 +91,7 @@ type Scenario struct {
 	MainMayBlock bool // main still blocked at the end is not a violation
 	RelPoints   bool
 	MaxSteps    int
+	MaxExecs    int  // per-bound execution budget for this scenario (0 = default); exceeding it caps the scenario
 	Sequential  bool // no scheduler: Body is run once, directly (engine B/D style scenario)
 }
 
@@ -529,6 +530,16 @@ func run(cfg Config, scns []Scenario, tier, only string, nproc int, limit time.D
 		var queue []item
 		inflight := 0
 		stopScn := map[int]bool{}
+		cappedScn := map[int]bool{}
+		defaultMax := 1500000
+		if tier == "thorough" {
+			defaultMax = 20000000
+		}
+		for _, i := range conc {
+			if scns[i].MaxExecs == 0 {
+				scns[i].MaxExecs = defaultMax
+			}
+		}
 		curBound := map[int]int{} // index into Bounds
 		pendingPerScn := map[int]int{}
 		for _, i := range conc {
@@ -570,11 +581,23 @@ func run(cfg Config, scns []Scenario, tier, only string, nproc int, limit time.D
 						cond.Broadcast()
 						return
 					}
-					// take the most recently added item (deep subtrees first keeps the queue small)
-					it := queue[len(queue)-1]
-					queue = queue[:len(queue)-1]
+					// take the most recently added item of the lowest-numbered scenario (scenarios finish in
+					// order; deep subtrees first keeps the queue small)
+					best := len(queue) - 1
+					for qi := len(queue) - 1; qi >= 0; qi-- {
+						if queue[qi].Scn < queue[best].Scn {
+							best = qi
+						}
+					}
+					it := queue[best]
+					queue = append(queue[:best], queue[best+1:]...)
+					if lim := scns[it.Scn].MaxExecs; !stopScn[it.Scn] && perScn[it.Scn].Execs > lim {
+						stopScn[it.Scn] = true
+						cappedScn[it.Scn] = true
+						capped = true
+					}
 					if stopScn[it.Scn] || time.Now().After(deadline) {
-						if !stopScn[it.Scn] {
+						if !stopScn[it.Scn] || cappedScn[it.Scn] {
 							capped = true
 							perScn[it.Scn].Rest = append(perScn[it.Scn].Rest, it.Prefix)
 						}
@@ -614,6 +637,9 @@ func run(cfg Config, scns []Scenario, tier, only string, nproc int, limit time.D
 					if pendingPerScn[it.Scn] == 0 && !stopScn[it.Scn] {
 						// bound completed for this scenario: next bound
 						reports[it.Scn].Bounds = append(reports[it.Scn].Bounds, it.Bound)
+						if os.Getenv("VERIF_VERBOSE") != "" {
+							fmt.Fprintf(os.Stderr, "  %s bound=%d executions=%d outcomes=%d t=%.1fs\n", scns[it.Scn].Name, it.Bound, perScn[it.Scn].Execs, len(perScn[it.Scn].Outcomes), time.Since(start).Seconds())
+						}
 						curBound[it.Scn]++
 						if curBound[it.Scn] < len(scns[it.Scn].Bounds) {
 							// restart counting: the larger bound re-explores the smaller one
